@@ -118,6 +118,7 @@ macro_rules! cat_cfg {
                         }
                         if mode == 18 {
                             diagnostics::<_, P>(&m, &t, src, ctx, &what)?;
+                            float_probability_view::<_, P>(&m, &t, &[n, n + 1, usize::MAX], &what)?;
                         }
                         if n >= 3 {
                             ctx.nontrivial();
@@ -613,6 +614,8 @@ where
     }
     if ctx.param == 18 {
         diagnostics::<_, P>(m, &t, src, ctx, what)?;
+        float_probability_view::<_, P>(m, &t, &[n, n + 1, usize::MAX], what)?;
+        float_probability_view::<_, P>(&m.to_generic_encoder_model(), &t, &[n, usize::MAX], &format!("generic encoder model of {what}"))?;
         // the non-contiguous decoder model overrides entropy_base2 and floating_point_symbol_table; the
         // encoder model has an inherent entropy_base2
         let gd = m.to_generic_decoder_model();
@@ -628,6 +631,31 @@ where
         }
     }
     Ok(t)
+}
+
+/// C18 (model part): `EncoderModel::floating_point_probability` is the exact fixed-point probability of the
+/// symbol divided by 2^P, and zero for a symbol outside the support (usize symbols `0..n`).
+pub fn float_probability_view<M, const P: usize>(m: &M, t: &Table, outside: &[usize], what: &str) -> Result<(), Fail>
+where
+    M: EncoderModel<P, Symbol = usize>,
+    M::Probability: Into<f64>,
+{
+    comparing(true);
+    let total = t.total() as f64;
+    for r in &t.rows {
+        let got: f64 = m.floating_point_probability::<f64>(r.0 as usize);
+        if got != r.2 as f64 / total {
+            return Err(Fail::new("C18/floating_point_probability", format!("{what}: floating_point_probability({}) = {got}, exact {} / 2^{}", r.0, r.2, t.prec)));
+        }
+    }
+    for &s in outside {
+        let got: f64 = m.floating_point_probability::<f64>(s);
+        if got != 0.0 {
+            return Err(Fail::new("C18/floating_point_probability", format!("{what}: floating_point_probability({s}) = {got} for a symbol outside the support")));
+        }
+    }
+    comparing(false);
+    Ok(())
 }
 
 /// C18 (model part): diagnostics against textbook formulas evaluated on the exact
